@@ -89,7 +89,7 @@ def absval(T, obj, sch=None, path='', check_type=True):
             raise Shape('%s: REAL mantissa %r is not integral' % (path or '.', m))
         return (int(m), int(b), int(e))
     if k in ir.CHAR_KINDS:
-        return bytes(obj.asOctets()).decode(ir.CHAR_CODEC[k])
+        return bytes(obj.asOctets()).decode(ir.codec_of(T))
     raise ValueError(k)
 
 
